@@ -25,7 +25,8 @@ def build_mem(aw=1, dw=2, pre=()):
     return block, mem
 
 
-def array_walk(simname='Simulation', aw=1, dw=2, pre=(), seed=0, max_steps=6000, init=None):
+def array_walk(simname='Simulation', aw=1, dw=2, pre=(), seed=0, max_steps=6000, init=None,
+               addr_pool=None):
     """One long run; an independent array model (a Python list of 2**aw words) predicts each read
     and the content; the walk continues until every (content, operation) pair of the complete
     space was exercised (small memories) or max_steps. -> replay-style dict"""
@@ -44,8 +45,8 @@ def array_walk(simname='Simulation', aw=1, dw=2, pre=(), seed=0, max_steps=6000,
     hist = []
     steps = 0
     while steps < max_steps:
-        op = dict(ra=rnd.randrange(nwords), rb=rnd.randrange(nwords), wa=rnd.randrange(nwords),
-                  wd=rnd.getrandbits(dw), we=rnd.getrandbits(1))
+        pick = (lambda: rnd.choice(addr_pool)) if addr_pool else (lambda: rnd.randrange(nwords))
+        op = dict(ra=pick(), rb=pick(), wa=pick(), wd=rnd.getrandbits(dw), we=rnd.getrandbits(1))
         if small:
             # steer towards uncovered pairs
             for _ in range(6):
